@@ -227,7 +227,7 @@ func IsAggregateName(name string) bool {
 		name = name[:len(name)-1]
 	}
 	switch name {
-	case "g", "cnt", "eg", "first", "gre":
+	case "g", "cnt", "eg", "first", "gre", "all":
 		return true
 	}
 	return false
